@@ -43,8 +43,10 @@ class FCodeMapper(LokiStringifyMapper):
 
     def map_float_literal(self, expr, enclosing_prec, *args, **kwargs):
         if expr.kind is not None:
-            return f'{str(expr.value)}_{str(expr.kind)}'
-        return str(expr.value)
+            result = f'{str(expr.value)}_{str(expr.kind)}'
+        else:
+            result = str(expr.value)
+        return self._parenthesise_negative_literal(result, enclosing_prec)
 
     map_int_literal = map_float_literal
 
